@@ -34,16 +34,16 @@ var (
 )
 
 type SpecCtx struct {
-	e       *Enc
-	fr      *Frame
-	st, old *State
-	names   map[string]CE
-	results []Val
+	e        *Enc
+	fr       *Frame
+	st, old  *State
+	names    map[string]CE
+	results  []Val
 	resNames []string
-	lookup  func(name string) (CE, bool)
-	what    string // for error messages
-	noOld   bool
-	inOld   bool
+	lookup   func(name string) (CE, bool)
+	what     string // for error messages
+	noOld    bool
+	inOld    bool
 }
 
 func (c *SpecCtx) with(st *State) *SpecCtx {
